@@ -157,6 +157,11 @@ func checkC11(c *Ctx, r *Report) {
 
 	// one write followed by one read per attempt
 	checkOneWriteOneRead(c, r)
+
+	// a command whose retries were given up returns an error: what the layers last held — possibly
+	// a reply that was rejected as belonging to another command — is never handed to the caller
+	// (rule shared with C04, C10, C13)
+	checkRetryFailureReturned(c, r)
 }
 
 // checkReplyMatchesRequest: rule shared by C11 (a reply to another command is not taken for
